@@ -244,3 +244,43 @@ def cli_subprocess(
         "swallowed": swallowed,
         "timeout": False,
     }
+
+
+# --------------------------------------------------------------------------- api subprocess
+
+_API_SCRIPT = r"""
+import json, sys, os, logging
+from pathlib import Path
+logging.getLogger("src").setLevel(logging.CRITICAL + 1)
+req = json.loads(sys.stdin.read())
+from src.orchestrator.core import Orchestrator
+root = Path(req["root"])
+os.chdir(root)
+out = []
+for paths in req["runs"]:
+    o = Orchestrator(project_root=root, config=req["config"])
+    vs = o.lint_files([root / p for p in paths])
+    out.append([{"rule_id": v.rule_id, "file": str(v.file_path), "line": v.line, "column": v.column, "message": v.message} for v in vs])
+print(json.dumps(out))
+"""
+
+
+def api_subprocess(root: Path, config: dict | None, runs: list[list[str]], one_process: bool = False, timeout: float = 300.0) -> list:
+    """Orchestrator(project_root=root, config=config).lint_files(paths) for every path list of
+    `runs`, each in its OWN fresh interpreter (one_process=False) or all consecutively in one fresh
+    interpreter.  Returns one list of violation dicts per run (None if the process failed)."""
+    import json  # noqa: PLC0415
+
+    def spawn(batch):
+        p = subprocess.run(  # noqa: S603
+            [env.PY, "-P", "-c", _API_SCRIPT], cwd=str(root), env=env.child_env(None), capture_output=True, timeout=timeout, check=False,
+            input=json.dumps({"root": str(root), "config": config, "runs": batch}).encode(),
+        )
+        try:
+            return json.loads(p.stdout.decode("utf-8", errors="surrogateescape"))
+        except ValueError:
+            return [None] * len(batch)
+
+    if one_process:
+        return spawn(runs)
+    return [spawn([r])[0] for r in runs]
